@@ -9,6 +9,7 @@ import EPV.Gen.SandwichHot3
 import EPV.Gen.SandwichHalf3
 import EPV.Gen.Rod3
 import EPV.Tactics
+import EPV.Lemmas.Bridge.HeatTac
 
 set_option linter.all false
 
@@ -31,8 +32,7 @@ macro "heat_n3" : tactic =>
              rw [rodSeries_real]
              simp only [Finset.sum_range_succ, Finset.sum_range_zero, zeroCoef_real, knInt_real, knHalf_real, bc1B_real,
                bc2A_real, bc3B_real, bc4A_real, bc1Static_real, bc2Static_real, bc3Static_real, bc4Static_real]
-             norm_num
-             ring_nf))
+             heat_num_eq))
 
 theorem sandwich3_model (p : Sandwich3.P) (x t : ℝ) :
     Sandwich3.temperature p x t = rodBC1 3 (sandwichP p) x t := by
@@ -61,7 +61,8 @@ theorem rod3_bc2_model (q : Rod3.P) (x t : ℝ) (h1 : q.alpha1 = 0) (h2 : q.beta
     (hF : q.gamma1 / q.beta1 = q.gamma2 / q.beta2) :
     Rod3.temperature q x t = rodBC2 3 (rod3P q) x t ∧ Rod3.outcome q x t = .ok := by
   have hc5 : (q.gamma1 / q.beta1 = q.gamma2 / q.beta2) = True := eq_true hF
-  simp only [epv_tree, epv_cond, h1, h2, h3, h4, hc5, if_true, if_false, epv_leaf, rod3P, and_true]
+  have hc5' : (q.gamma2 / q.beta2 = q.gamma1 / q.beta1) = True := eq_true hF.symm
+  simp only [epv_tree, epv_cond, h1, h2, h3, h4, hc5, hc5', if_true, if_false, epv_leaf, rod3P, and_true]
   heat_n3
 
 theorem rod3_bc3_model (q : Rod3.P) (x t : ℝ) (h1 : q.alpha1 ≠ 0) (h2 : q.beta1 = 0) (h3 : q.alpha2 = 0) (h4 : q.beta2 ≠ 0) :
